@@ -19,6 +19,7 @@ using SchedulerLock = std::unique_lock<std::recursive_mutex>;
 #include SNIP_ENFORCE_TTL
 #include SNIP_MANIFEST_TTL
 #include SNIP_VALIDATE_SHARDS
+#include SNIP_AUTO
 }
 void Node::update_swarm_plan(const protocol::Manifest&) { ++g_plans; }
 #include SNIP_INGEST
